@@ -29,8 +29,10 @@ RULE = (
     "(special+continuous parameters), optionally wrapped with 1-2 controls (control values 0/1; ControlledOperation / "
     "ControlledGate / controlled_by), on permuted qubits of a 1-4 qubit register; exported by cirq.qasm(op, args=...) and as a "
     "one-operation circuit. unitary: a 1-4 wire circuit recipe over the gate table with every insert strategy. feedforward: a "
-    "1-4 wire circuit of Ry state preparation, gates, 1-3 qubit measurements with (short/full) invert masks and awkward keys "
-    "('x y', 'p:q', '0'), repeated keys, resets and classically controlled operations (KeyCondition incl. index, sympy "
+    "1-4 wire circuit of Ry state preparation (also after measurements), gates, 1-3 qubit measurements with (short/full) invert masks and awkward keys "
+    "('x y', 'p:q', '0'), repeated keys, resets and classically controlled operations - simple mnemonics, and densely ops that need the exporter's decomposition / "
+    "matrix-fallback paths (fractional two-qubit powers, FSim, matrix gates, shifted gates, CCZ**t ...), as "
+    "ClassicallyControlledOperation or cirq.If (KeyCondition incl. index, sympy "
     "key==const, bitmask and other sympy conditions, 1-2 conditions). Each x qubit order (permutation + optional idle qubit) "
     "x precision {3,6,10,15} x version {2.0,3.0} x header (None/''/multi-line/tricky) x entry point (to_qasm / cirq.qasm / "
     "cirq.qasm(args=) / QasmOutput). Oracle: own OpenQASM reader -> numpy product (unitary part) or exhaustive-branching "
@@ -50,8 +52,9 @@ ASSUMPTIONS = [
     "<= 10^-precision * pi * #emitted statements that carry an angle + 1e-7 (parameterless statements are exact)",
     "documented rejections are predicted from the recipe (more than one condition in 2.0, multi-bit / indexed KeyCondition, "
     "sympy condition other than key == constant, BitMaskKeyCondition (raises NotImplementedError), confusion map) and "
-    "matched with the exception *type* and raising site (innermost traceback frame), never the message text; a predicted "
-    "rejection that does not happen is a violation, an unpredicted one a crash; the exporter's on_stuck ValueError "
+    "matched with the exception *type* and raising site (innermost traceback frame), never the message text; an unpredicted "
+    "exception is a crash; a predicted rejection that does not happen is no violation - the accepted text goes through the "
+    "normal validation (Reject if it uses syntax the reference reader does not know); the exporter's on_stuck ValueError "
     "(operation without any QASM form, raised from the decompose protocol) is accepted wherever it occurs",
 ]
 SENSITIVITY = [
@@ -136,8 +139,8 @@ def _export(circuit, r, order, expected=()):
 
     ``expected`` = [(kind, exception type name, certain)] : the documented rejections that the *recipe* predicts
     (see ``expected_rejections``).  An exception is a Reject only if its type and raising site fit a predicted rejection,
-    or if it is the exporter's on_stuck ValueError (operation without any QASM form); a certainly predicted rejection
-    that does not happen is a violation; anything else propagates (crash bucket)."""
+    or if it is the exporter's on_stuck ValueError (operation without any QASM form); anything else propagates (crash
+    bucket).  A predicted rejection that does not happen is not a violation: the text is validated like any other."""
     entry = r.get("entry", "to_qasm")
     precision, version = r.get("precision", 10), r.get("version", "2.0")
     header = HEADERS[r.get("header", 0) % len(HEADERS)]
@@ -171,10 +174,17 @@ def _export(circuit, r, order, expected=()):
     return text, list(order), precision, version
 
 
-def _parse(text, version, n_qubits):
+UNREADABLE = "accepted export of a circuit the documented rules reject: not evaluable by the reference reader"
+
+
+def _parse(text, version, n_qubits, lenient=False):
     try:
         prog = Q.parse(text)
     except Q.QasmError as e:
+        if lenient:
+            # the recipe predicted a documented rejection, the exporter accepted instead (a future extension) and writes
+            # syntax outside the subset this reader knows: nothing can be concluded
+            raise Reject(UNREADABLE)
         raise Violation(f"emitted OpenQASM does not parse: {e}\n{text[-1500:]}")
     if prog.version != version:
         raise Violation(f"emitted text declares OPENQASM {prog.version}, requested {version}")
@@ -391,6 +401,23 @@ CC_SIMPLE = ["XPow", "YPow", "ZPow", "Rx", "Ry", "Rz", "PhasedXPow", "PhasedXZ",
              "CSwap", "H1", "CYint", "Id1"]
 
 
+# gates whose classical control has to go through the exporter's decomposition / matrix-fallback paths
+CC_HARD = ["CZPow", "CXPow", "CYPow", "SwapPow", "ISwapPow", "XXPow", "YYPow", "ZZPow", "FSim", "PhasedFSim", "PhasedISwapPow",
+           "Matrix2", "MS", "CCZPow", "CCXPow", "HPow", "XShift", "ZShift", "YShift", "Matrix1", "PhasedXZ", "TwoQubitDiagonal",
+           "PauliInteraction", "SYC"]
+_FRACTIONS = [0.5, -0.5, 0.25, 0.75, 1.5, 1 / 3, 0.125, -0.25]
+
+
+def _hard_gate(draw, name):
+    if name in ("XShift", "YShift", "ZShift"):
+        return [name[0] + "Pow", {"e": draw(st.sampled_from([1.0, 0.5, 0.25, 1 / 3])), "s": draw(st.sampled_from([-0.5, 0.25, 0.5, 0.125]))}]
+    f = G.FAMILIES[name]
+    if "eigen" in f.tags:
+        e = draw(st.one_of(st.sampled_from(_FRACTIONS), st.floats(0.05, 1.95).map(lambda x: round(x, 4))))
+        return [name, {"e": e, "s": draw(st.sampled_from([0.0, 0.0, 0.0, -0.5, 0.25]))}]
+    return [name, draw(f.params)]
+
+
 def _simple_gate(draw, name):
     if name == "CXint":
         return ["CXPow", {"e": draw(st.sampled_from([1.0, -1.0, 3.0])), "s": 0.0}]
@@ -409,6 +436,12 @@ def _simple_gate(draw, name):
     return [name, draw(G.FAMILIES[name].params)]
 
 
+def _prep_angle():
+    """mostly generic angles (both measurement outcomes with O(1) probability), sometimes the special ones"""
+    return st.one_of(st.floats(0.4, 2.7).map(lambda x: round(x, 4)), st.floats(0.4, 2.7).map(lambda x: round(x, 4)),
+                     st.floats(0.4, 2.7).map(lambda x: round(x, 4)), G.rads())
+
+
 @st.composite
 def _ff_case(draw, max_w=4, max_ops=9):
     G._lazy()
@@ -420,8 +453,8 @@ def _ff_case(draw, max_w=4, max_ops=9):
     ops = []
     for i in range(n):
         # state preparation: measurements of |0...0> would make every condition deterministic
-        if not _chance(draw, 4):
-            ops.append({"k": "g", "g": ["Ry", {"r": draw(G.rads())}], "w": [i], "ins": 0})
+        if not _chance(draw, 6):
+            ops.append({"k": "g", "g": ["Ry", {"r": draw(_prep_angle())}], "w": [i], "ins": 0})
     nprep = len(ops)
     for _ in range(nops):
         kind = draw(st.sampled_from(["g", "g", "g", "m", "m", "m", "cc", "cc", "cc", "cc", "reset"]))
@@ -437,19 +470,28 @@ def _ff_case(draw, max_w=4, max_ops=9):
                 inv = [draw(st.booleans()) for _ in range(draw(st.integers(0, k)))]
             ops.append({"k": "m", "key": draw(st.integers(0, len(KEYS) - 1)), "w": w, "inv": inv, "ins": ins,
                         "conf": _chance(draw, 120)})
+            if draw(st.booleans()):
+                # put the collapsed qubits back into superposition: a later (classically controlled) gate on a basis state
+                # is often just a phase, so a lost ``if`` guard would be invisible
+                for i in w:
+                    ops.append({"k": "g", "g": ["Ry", {"r": draw(_prep_angle())}], "w": [i], "ins": 0})
             continue
         if kind == "reset":
             ops.append({"k": "reset", "w": [draw(st.integers(0, n - 1))], "ins": ins})
             continue
-        if kind == "g" or _chance(draw, 6):
+        cls = "table" if kind == "g" else draw(st.sampled_from(["simple", "hard", "table", "hard", "simple", "hard", "simple"]))
+        if cls == "table":
             g = draw(G.gate_recipes(lambda f: f.unitary and not f.qudit, max_arity=min(3, n)))
         else:
             for _try in range(4):
-                g = _simple_gate(draw, draw(st.sampled_from(CC_SIMPLE)))
+                if cls == "hard":
+                    g = _hard_gate(draw, draw(st.sampled_from(CC_HARD)))
+                else:
+                    g = _simple_gate(draw, draw(st.sampled_from(CC_SIMPLE)))
                 if G.arity(g) <= n:
                     break
             else:
-                g = ["XPow", {"e": 1.0, "s": 0.0}]
+                g = ["XPow", {"e": 0.5, "s": 0.25}] if cls == "hard" else ["XPow", {"e": 1.0, "s": 0.0}]
         k = G.arity(g)
         w = list(draw(st.permutations(list(range(n)))))[:k]
         o = {"k": kind, "g": g, "w": w, "ins": ins}
@@ -764,16 +806,17 @@ def expected_rejections(steps, version):
 def oracle_ff(r):
     circuit, qs, steps, arity = _build_ff(r)
     order = _ordered_qubits(r, qs)
-    text, order, precision, version = _export(circuit, r, order, expected_rejections(steps, effective_version(r)))
-    return compare_program(circuit, order, text, precision, version, steps, r.get("entry"))
+    expected = expected_rejections(steps, effective_version(r))
+    text, order, precision, version = _export(circuit, r, order, expected)
+    return compare_program(circuit, order, text, precision, version, steps, r.get("entry"), lenient=bool(expected))
 
 
-def compare_program(circuit, order, text, precision, version, steps=(), entry=None):
+def compare_program(circuit, order, text, precision, version, steps=(), entry=None, lenient=False):
     """Oracle (b): joint record distribution + per-record final state of ``text`` vs ``circuit`` (qubits in ``order``)."""
     n = len(order)
     ir_c, info = _cirq_ir(circuit, order)
     arity = info["arity"]
-    prog = _parse(text, version, n)
+    prog = _parse(text, version, n, lenient)
     keymap = _creg_for_keys(prog, info["keys"])
     for key, creg in keymap.items():
         if prog.cregs[creg] != arity[key]:
@@ -781,7 +824,12 @@ def compare_program(circuit, order, text, precision, version, steps=(), entry=No
     if len(prog.cregs) != len(keymap):
         raise Violation(f"classical registers {list(prog.cregs)} declared for keys {info['keys']}")
     try:
-        ir_q = _qasm_ir(prog)
+        try:
+            ir_q = _qasm_ir(prog)
+        except NotImplementedError:
+            if lenient:
+                raise Reject(UNREADABLE)
+            raise
         bq = I.run(ir_q, [2] * n, max_branches=1 << 14)
         bc = I.run(ir_c, [2] * n, max_branches=1 << 14)
     except OverflowError:
@@ -826,8 +874,20 @@ def compare_program(circuit, order, text, precision, version, steps=(), entry=No
            "sanitised_key": any(k in ("x y", "p:q") for k in info["keys"]),
            "repeated_key": any(c > 1 for c in _counts(steps).values()), "branches": 1 << (min(len(bc), 64).bit_length() - 1),
            "has_reset": any(e["k"] == "reset" for e in steps)}
+    hard = [e for e in steps if e["k"] == "cc" and not _has_direct_qasm(e["g"])]
+    lab["cc_fallback"] = bool(hard)  # classically controlled op that has to go through decomposition / matrix fallback
+    lab["cc_fallback_2q"] = any(G.arity(e["g"]) == 2 for e in hard)
+    lab["cc_fallback_branching"] = bool(hard) and len(bc) >= 2
+    lab["cc_if_form"] = any(e.get("form") == "if" for e in steps if e["k"] == "cc")
     lab.update(_ext_label(prog))
     return lab
+
+
+def _has_direct_qasm(g):
+    gate = G.build_gate(g)
+    k = G.arity(g)
+    qs = cirq.LineQubit.range(max(k, 1))
+    return cirq.qasm(gate.on(*qs[:k]), args=cirq.QasmArgs(qubit_id_map={q: f"q[{i}]" for i, q in enumerate(qs)}), default=None) is not None
 
 
 def _counts(steps):
@@ -895,5 +955,6 @@ SUBCHECKS = [
              essential={"needs_decomposition": 0.3, "version=3.0": 0.3, "version=2.0": 0.3}),
     SubCheck("feedforward", _ff_case(), oracle_ff, quick=2400, thorough=250000, shards_quick=8, shards_thorough=16,
              essential={"classical_control": 0.2, "inverted_multi_measurement": 0.08, "needs_decomposition": 0.2,
+                        "cc_fallback_2q": 0.08, "cc_fallback_branching": 0.12,
                         "version=3.0": 0.25, "version=2.0": 0.25}, examples=_EXAMPLES_FF),
 ]
